@@ -869,7 +869,7 @@ def run_reprs(acc, ctx, tier, only_case=None):
         mask = R.bits_to_mask(bits, ctx.shape)
         icls, ecls = repr_class(rep), repr_class(erep)
         is_list = isinstance(data, list)
-        snap = None if is_list else (data.copy(), err.copy())
+        snap = [(a, a.copy()) for a in (data, err) if not isinstance(a, list)]
 
         def case(k, form):
             return dict(ctx.case(k, bits, 'finite', True, form), group='repr', repr=rep, err_repr=erep, dvariant=dv)
@@ -889,8 +889,7 @@ def run_reprs(acc, ctx, tier, only_case=None):
             acc.violation('result-shape', f'do_photometry:image-{icls}', case(0, 'do_photometry'),
                           [np.shape(res[0]), np.shape(res[1])], (npos,))
             continue
-        if snap is not None and not (np.array_equal(snap[0], data) and np.array_equal(snap[1], err)
-                                     and data.dtype == snap[0].dtype and err.dtype == snap[1].dtype):
+        if not all(np.array_equal(a, a0) and a.dtype == a0.dtype for a, a0 in snap):
             acc.violation('input-modified', f'do_photometry:image-{icls}', case(0, 'do_photometry'))
         # how many cases can tell a float64 accumulation from one in the narrow float dtype of the image (measured:
         # non-vacuity of the axis; never used by the oracle)
